@@ -16,6 +16,7 @@ STRENGTHENED = {
     "C03": "caught by the oracle's CSI sweep only: added idiom 79 (cursor outside the region + IL/DL/SU/SD)",
     "C04": "detected in runs 1-7 (oracle, then also correspondence after idiom 80). EQUIVALENT since fix 5a439e4: print() no longer receives C1 characters because process() never lets vte resume a split UTF-8 sequence, so the narrowed range is unreachable; the worker's demonstration passes with the change applied and exit 0 is the correct verdict",
     "C09": "as C01",
+    "C08e": "caught with 1 disagreement in runs 6-8, missed in run 9 after the random streams shifted (RI with the cursor strictly above the region and not on the first row): idiom 79 got exactly that branch",
     "C10f": "caught with a single disagreement in runs 6 and 7, missed in run 8 after the random streams shifted: the table family now enumerates DECSET/DECRST/SGR/DECSED lists of 31-40 parameters and idiom 76 adds long private-mode lists",
     "C10": "caught by the oracle's mode table only: added multi-parameter DECSET/DECRST with unknown modes in between (idiom 81, modes family)",
     "C11": "caught by the oracle's built-in DECSC scenario only: added idiom 82 (DECSC with origin mode/region/pen, region changed so that it excludes the saved row, DECRC) to the alt and stream families",
